@@ -28,11 +28,20 @@ fn bin_z(ctx: &mut Ctx, op: &str, a: &[BigInt], b: &[BigInt]) {
             "z.add" => &pa + &pb,
             "z.sub" => &pa - &pb,
             "z.mul" => &pa * &pb,
+            // the operator impls on owned values are separate code
+            "z.add.o" => pa.clone() + pb.clone(),
+            "z.sub.o" => pa.clone() - pb.clone(),
+            "z.mul.o" => pa.clone() * pb.clone(),
             _ => unreachable!(),
         };
         show_pz(&r)
     });
     ctx.emit(op, &[show_pz(&pa), show_pz(&pb)], ans);
+    // every third case also through the owned impl
+    if !op.ends_with(".o") && (a.len() + 2 * b.len() + ctx.lines.len()) % 3 == 0 {
+        let o = format!("{op}.o");
+        bin_z(ctx, &o, a, b);
+    }
 }
 fn bin_q(ctx: &mut Ctx, op: &str, a: &[BigRational], b: &[BigRational]) {
     let (pa, pb) = (pq(a), pq(b));
@@ -41,16 +50,25 @@ fn bin_q(ctx: &mut Ctx, op: &str, a: &[BigRational], b: &[BigRational]) {
             "q.add" => &pa + &pb,
             "q.sub" => &pa - &pb,
             "q.mul" => &pa * &pb,
+            "q.add.o" => pa.clone() + pb.clone(),
+            "q.sub.o" => pa.clone() - pb.clone(),
+            "q.mul.o" => pa.clone() * pb.clone(),
             _ => unreachable!(),
         };
         show_pq(&r)
     });
     ctx.emit(op, &[show_pq(&pa), show_pq(&pb)], ans);
+    if !op.ends_with(".o") && (a.len() + 2 * b.len() + ctx.lines.len()) % 3 == 0 {
+        let o = format!("{op}.o");
+        bin_q(ctx, &o, a, b);
+    }
 }
 fn do_neg(ctx: &mut Ctx, a: &[BigInt]) {
     let pa = pz(a);
     let ans = run(|| show_pz(&(-&pa)));
     ctx.emit("z.neg", &[show_pz(&pa)], ans);
+    let ans = run(|| show_pz(&(-pa.clone())));
+    ctx.emit("z.neg.o", &[show_pz(&pa)], ans);
 }
 fn do_fromraw(ctx: &mut Ctx, a: &[BigInt]) {
     let ans = run(|| show_pz(&pz(a)));
@@ -162,9 +180,48 @@ fn do_laws_q(ctx: &mut Ctx, a: &[BigRational], b: &[BigRational], c: &[BigRation
 pub fn replay(ctx: &mut Ctx, f: &[&str]) -> bool {
     let n = f.len();
     match (f[0], n) {
-        ("z.add" | "z.sub" | "z.mul", 3) => bin_z(ctx, f[0], &parse_ints(f[1]), &parse_ints(f[2])),
-        ("q.add" | "q.sub" | "q.mul", 3) => bin_q(ctx, f[0], &parse_rats(f[1]), &parse_rats(f[2])),
-        ("z.neg", 2) => do_neg(ctx, &parse_ints(f[1])),
+        ("z.add.o" | "z.sub.o" | "z.mul.o", 3) => {
+            let (pa, pb) = (pz(&parse_ints(f[1])), pz(&parse_ints(f[2])));
+            let ans = run(|| {
+                show_pz(&match f[0] {
+                    "z.add.o" => pa.clone() + pb.clone(),
+                    "z.sub.o" => pa.clone() - pb.clone(),
+                    _ => pa.clone() * pb.clone(),
+                })
+            });
+            ctx.emit(f[0], &[show_pz(&pa), show_pz(&pb)], ans);
+        }
+        ("q.add.o" | "q.sub.o" | "q.mul.o", 3) => {
+            let (pa, pb) = (pq(&parse_rats(f[1])), pq(&parse_rats(f[2])));
+            let ans = run(|| {
+                show_pq(&match f[0] {
+                    "q.add.o" => pa.clone() + pb.clone(),
+                    "q.sub.o" => pa.clone() - pb.clone(),
+                    _ => pa.clone() * pb.clone(),
+                })
+            });
+            ctx.emit(f[0], &[show_pq(&pa), show_pq(&pb)], ans);
+        }
+        ("z.neg.o", 2) => {
+            let pa = pz(&parse_ints(f[1]));
+            let ans = run(|| show_pz(&(-pa.clone())));
+            ctx.emit("z.neg.o", &[show_pz(&pa)], ans);
+        }
+        ("z.add" | "z.sub" | "z.mul", 3) => {
+            let n = ctx.lines.len();
+            bin_z(ctx, f[0], &parse_ints(f[1]), &parse_ints(f[2]));
+            ctx.lines.truncate(n + 1);
+        }
+        ("q.add" | "q.sub" | "q.mul", 3) => {
+            let n = ctx.lines.len();
+            bin_q(ctx, f[0], &parse_rats(f[1]), &parse_rats(f[2]));
+            ctx.lines.truncate(n + 1);
+        }
+        ("z.neg", 2) => {
+            let n = ctx.lines.len();
+            do_neg(ctx, &parse_ints(f[1]));
+            ctx.lines.truncate(n + 1);
+        }
         ("z.fromraw", 2) => do_fromraw(ctx, &parse_ints(f[1])),
         ("z.of", 3) => do_of_z(ctx, &parse_ints(f[1]), &parse_int(f[2])),
         ("q.of", 3) => do_of_q(ctx, &parse_rats(f[1]), &parse_rat(f[2])),
